@@ -379,6 +379,8 @@ def body(chk, db, cfgname):
                 r8.bad(site, g.loc(j), "the result of %s is dereferenced on the edge where it EQUALS end() (test inverted): end() is dereferenced for every key that is absent, and present keys take the not-found path" % g.s(n["args"][0])[:70], cfgname)
             elif strip_targs(g.name) in ASSUMED_FOUND:
                 r8.ok(site, g.loc(j), "assumed found: " + ASSUMED_FOUND[strip_targs(g.name)], cfgname)
+            elif any(x[0] in ("true", "false") and isinstance(x[1], tuple) and x[1][0] in ("call", "mcall") and key_contains(x[1], lambda y: y == k[3]) for x in fa):
+                r8.unknown(site, g.loc(j), "the look-up is dereferenced under a test of the same key through a helper (%s): whether that establishes presence is not analysed" % str([x[1][1] for x in fa if x[0] in ("true", "false") and isinstance(x[1], tuple) and x[1][0] in ("call", "mcall") and key_contains(x[1], lambda y: y == k[3])][0])[:60], cfgname)
             else:
                 r8.bad(site, g.loc(j), "the result of %s is dereferenced without a dominating test against end() (or count): an absent key dereferences end()" % g.s(n["args"][0])[:70], cfgname)
 
